@@ -157,6 +157,10 @@ def make_case(rnd, lname, tlib, bf):
     rec = dict(st=st, ents=[e for _, _, e in ents], gotio=[], gotic=[], raised=False)
     try:
         df = sdf.parse(sdf_text)
+        if rnd.random() < 0.35:
+            # the parsed file is used more than once (another annotation pass, the same design again): every use gives the same arrays
+            df.iopaths(c, tlib)
+            if df._interconnects is not None: df.interconnects(c, tlib)
         io = np.asarray(df.iopaths(c, tlib)) * 8
         ic = np.asarray(df.interconnects(c, tlib)) * 8 if any(not e['io'] for e in rec['ents']) or df._interconnects is not None else np.zeros_like(io)
         for a in (io, ic):
